@@ -389,11 +389,14 @@ pub fn resolve_inputs(spec: &str, seed: u64) -> Vec<Input> {
                 out.extend(fixture_inputs().into_iter().filter(|i| absmod::validate(&i.bytes).is_ok()));
                 out.extend(offset_inputs());
                 out.extend(nocode_inputs());
+                out.extend(custom_name_inputs());
             }
+            "customname" => out.extend(custom_name_inputs()),
             "fixtures-all" => {
                 out.extend(fixture_inputs());
                 out.extend(offset_inputs());
                 out.extend(nocode_inputs());
+                out.extend(custom_name_inputs());
                 out.extend(noncanonical_inputs());
                 out.extend(trailing_operator_inputs());
             }
@@ -1352,6 +1355,77 @@ pub fn body_size_inputs(big: bool) -> Vec<Input> {
 }
 
 /// modules without a code section (data-only, import-only shims, declarations only, the empty module)
+/// unknown custom sections whose *name* is encoded unusually: 127 / 128 / 300 bytes long (the length prefix grows to two
+/// bytes), or short with a padded (non-minimal) length prefix; before, between and after the known sections
+pub fn custom_name_inputs() -> Vec<Input> {
+    fn leb(mut v: u32, pad_to: usize) -> Vec<u8> {
+        let mut out = vec![];
+        loop {
+            let b = (v & 0x7f) as u8;
+            v >>= 7;
+            if v == 0 && out.len() + 1 >= pad_to {
+                out.push(b);
+                return out;
+            }
+            out.push(b | 0x80);
+        }
+    }
+    fn custom(name: &[u8], name_len_bytes: usize, payload: &[u8]) -> Vec<u8> {
+        let mut body = leb(name.len() as u32, name_len_bytes);
+        body.extend_from_slice(name);
+        body.extend_from_slice(payload);
+        let mut out = vec![0u8];
+        out.extend(leb(body.len() as u32, 1));
+        out.extend(body);
+        out
+    }
+    let base = wat::parse_str("(module (func (export \"f\") (result i32) i32.const 7))").unwrap();
+    // header | type | function | export | code
+    let mut secs: Vec<Vec<u8>> = vec![];
+    let mut i = 8;
+    while i < base.len() {
+        let start = i;
+        i += 1;
+        let mut len = 0usize;
+        let mut shift = 0;
+        loop {
+            let b = base[i];
+            i += 1;
+            len |= ((b & 0x7f) as usize) << shift;
+            shift += 7;
+            if b & 0x80 == 0 {
+                break;
+            }
+        }
+        i += len;
+        secs.push(base[start..i].to_vec());
+    }
+    let mut out = vec![];
+    let long = |n: usize| -> Vec<u8> { (0..n).map(|k| b'a' + (k % 26) as u8).collect() };
+    let shapes: Vec<(&str, Vec<u8>, usize)> = vec![
+        ("n127", long(127), 1), ("n128", long(128), 1), ("n300", long(300), 1),
+        ("pad2", b"padded".to_vec(), 2), ("pad5", b"p5".to_vec(), 5), ("pad2-empty", vec![], 2),
+    ];
+    for (tag, name, nlb) in &shapes {
+        for at in [0usize, 2, secs.len()] {
+            let mut b = base[..8].to_vec();
+            for (k, s) in secs.iter().enumerate() {
+                if k == at {
+                    b.extend(custom(name, *nlb, b"payload"));
+                    b.extend(custom(b"plain", 1, b"x"));
+                }
+                b.extend_from_slice(s);
+            }
+            if at == secs.len() {
+                b.extend(custom(name, *nlb, b"payload"));
+                b.extend(custom(name, *nlb, b""));
+            }
+            out.push(Input { id: format!("customname-{}-{}", tag, at), bytes: b, source: format!("customname:{}:{}", tag, at) });
+        }
+    }
+    out
+}
+
 pub fn nocode_inputs() -> Vec<Input> {
     let wats = [
         "(module (memory 1) (data (i32.const 0) \"abc\"))",
